@@ -8,14 +8,15 @@ C07 driver: one JSON request per line on stdin, one JSON answer per line on stdo
             | {"k":"job","name","script":[..],"deps":[..]} | {"k":"func","name","body"} | {"k":"coll","backend","name","body"}
             | {"k":"ext","kind","fields"} | {"k":"bad"}
       PROBE = {"b":B,"x":[[kind,proto]..],"q":{..},"md":[..],"r":{..}}        (r = what the translator proper answered)
-              optional "reused":true — the probe's AST object was translated before: the model translates `reuseProbe`
+              optional "reused":true — the probe's AST object (or a sub-tree of it) was translated before: the model
+              translates `reuseProbe` of it (the identity since fix 1c4553a)
       optional "states":[STATE ..]  — the IMPLEMENTATION's observed state after each operation.  When given, operation k
       is simulated from the observed state before it (one-step simulation), otherwise from the model's own previous state.
       -> {"steps":[{"asis":STATE,"ideal":STATE,"outcome":..,"benignNew":bool,"benignOn":bool}..],"allBenign":bool,
           "clean":bool,"probe":{"outcome":..,"found":[[kind,proto,fields]..],"asis":STATE,"ideal":STATE}}
       "asis" = the model of the code as it is; "ideal" = the same operation if every translation ended with a full reset
-      (registry, namespaces, executor lists, own extended-metadata dict, found metadata of this translation only) and no
-      dict were shared: the harness accepts either, component by component, so that a repair of a listed leak is not an alarm.
+      (registry, namespaces, executor lists, extended-metadata dict, found metadata of this translation only):
+      the harness accepts either, component by component, so that a repair of a listed leak is not an alarm.
   {"op":"agree","fresh":OBS,"after":OBS}   OBS = {"kind":..,"files":[[name,[lines]]..],"found":[..]}
       -> {"holds":bool,"why":..}
   {"op":"witness","name":..,"history":[..],"probe":..,"on":..} -> {"match":bool,"expected":[..],"got":[..]}
@@ -97,14 +98,13 @@ def jpairs (l : List (String × String)) : Json := Json.arr (l.map fun p => jstr
 def execJson (ex : Exec) : Json :=
   Json.mkObj [("b", ex.backend.tag),
     ("job", Json.arr (ex.job.map fun b => Json.arr #[Json.str b.name, jstrs b.script, jstrs b.deps]).toArray),
-    ("inject", jpairs ex.inject), ("shared", ex.xmdShared), ("own", jpairs ex.xmdOwn),
+    ("inject", jpairs ex.inject), ("xmd", jpairs ex.xmd),
     ("found", Json.arr (ex.found.map fun f => jstrs [f.1, f.2.1, f.2.2]).toArray)]
 
 def stateJson (s : HState) : Json :=
   Json.mkObj [("reg", Json.arr (s.reg.map fun e => jstrs [e.1.1, e.1.2, e.2]).toArray),
     ("spaces", Json.arr (s.ns.spaces.map jstrs).toArray),
     ("enums", Json.arr (s.ns.enums.map fun e => Json.arr #[jstrs e.1.1, Json.str e.1.2, jstrs e.2]).toArray),
-    ("shared_xmd", jpairs s.sharedXmd),
     ("execs", Json.arr (s.execs.map execJson).toArray),
     ("counter", s.counter)]
 
@@ -128,8 +128,8 @@ def parseExec (j : Json) : Except String Exec := do
     let a ← b.getArr?
     if a.size != 3 then throw "job = [name, script, deps]"
     pure (⟨← a[0]!.getStr?, ← strList a[1]!, ← strList a[2]!⟩ : JobBlock)
-  pure ⟨← parseBackend (← getS j "b"), job, ← pairList (← j.getObjVal? "inject"), ← (← j.getObjVal? "shared").getBool?,
-    ← pairList (← j.getObjVal? "own"), ← tripleList (← j.getObjVal? "found")⟩
+  pure ⟨← parseBackend (← getS j "b"), job, ← pairList (← j.getObjVal? "inject"),
+    ← pairList (← j.getObjVal? "xmd"), ← tripleList (← j.getObjVal? "found")⟩
 
 def parseState (j : Json) : Except String HState := do
   let reg ← (← tripleList (← j.getObjVal? "reg")).mapM fun t => pure ((t.1, t.2.1), t.2.2)
@@ -138,15 +138,12 @@ def parseState (j : Json) : Except String HState := do
     let a ← e.getArr?
     if a.size != 3 then throw "enum = [path, name, values]"
     pure ((← strList a[0]!, ← a[1]!.getStr?), ← strList a[2]!)
-  pure ⟨reg, ⟨spaces, enums⟩, ← pairList (← j.getObjVal? "shared_xmd"), ← (← getL j "execs").mapM parseExec, ← getN j "counter"⟩
+  pure ⟨reg, ⟨spaces, enums⟩, ← (← getL j "execs").mapM parseExec, ← getN j "counter"⟩
 
 /-- the operation as a fully repaired library would perform it (see the header) -/
 def idealStep (s : HState) : OpO → HState
-  | .new b => { s with reg := ainsertAll s.reg (Dreal b), execs := s.execs ++ [⟨b, [], [], false, [], []⟩] }
-  | .addXmd e x =>
-    match s.execs[e]? with
-    | none => s
-    | some ex => { s with execs := s.execs.set e { ex with xmdShared := false, xmdOwn := ainsertAll (effXmd s ex) x } }
+  | .new b => newExec Dreal s b
+  | .addXmd e x => addXmd s e x
   | .translate e q md r =>
     match s.execs[e]? with
     | none => s
@@ -158,7 +155,7 @@ def idealStep (s : HState) : OpO → HState
         | none => stageOf r.tag (wrongBackend ex.backend m.1.specs) != .transform
       let nf := if reached then xitemsOf m.1.specs else []
       { t.1 with reg := defaultsReg Dreal ex.backend, ns := NsReg.empty,
-                 execs := s.execs.set e { ex with job := [], inject := [], xmdShared := false, xmdOwn := [], found := nf } }
+                 execs := s.execs.set e { ex with job := [], inject := [], xmd := [], found := nf } }
 
 structure RunAcc where
   s : HState
@@ -203,8 +200,7 @@ def doRun (j : Json) : Except String Json := do
   let t := translateWith Dreal (fun _ => r) s2 e p.q p.md
   let clean := match on with | some e => cleanOn Dreal p s e | none => cleanNew Dreal p s
   pure (Json.mkObj [("steps", Json.arr a.steps.toArray),
-    -- a re-used object that carried MetaData is outside the hypotheses (`retranslation_indep_*_partial`)
-    ("allBenign", a.bNew.all id && a.bOn.all id && !(reused && !p₀.md.isEmpty)), ("clean", clean),
+    ("allBenign", a.bNew.all id && a.bOn.all id), ("clean", clean),
     ("probe", Json.mkObj [("outcome", outcomeName t.2),
        ("found", Json.arr ((foundFor p t.1 e).map fun f => jstrs [f.1, f.2.1, f.2.2]).toArray),
        ("asis", stateJson (run (stepO Dreal))), ("ideal", stateJson (run idealStep))])])
